@@ -230,6 +230,16 @@ type Interp struct {
 	// variadic argument array of append) is a concrete slice.
 	ConcreteSlices bool
 
+	// OnStore (optional) is told about every store through a computed address
+	// (field, element, pointer — not the local cells of a frame): the store, the
+	// abstract address and the value stored.
+	OnStore func(st *ssa.Store, addr Val, val Val)
+	// Unbound (optional) supplies the value of an SSA value that has no binding
+	// in the frame — the values defined outside the region executed by RunRegion
+	// (loop indices, values computed before the loop). For an *ssa.Alloc of the
+	// enclosing function it answers with the content of the cell.
+	Unbound func(v ssa.Value) (Val, bool)
+
 	// Halt can be set (e.g. from OnCall) to abandon the current run: every active
 	// Call returns at once with an empty value and Err stays nil.
 	Halt bool
@@ -319,8 +329,34 @@ func (it *Interp) Call(fn *ssa.Function, args []Val, bindings []Val) Val {
 			fr.env[fv] = Sym(fn.Name()+"^"+fv.Name(), fv.Type())
 		}
 	}
-	b := fn.Blocks[0]
-	var prev *ssa.BasicBlock
+	return it.exec(fr, fn.Blocks[0], nil, nil)
+}
+
+// RunRegion executes fn from block start until control is about to enter a
+// block for which stop answers true (or the function returns). The values the
+// region uses but does not define come from Unbound; φ-nodes of start are
+// unbound too. Stores are observable through OnStore. Used to tabulate one
+// iteration of a loop body without interpreting the function around it.
+func (it *Interp) RunRegion(fn *ssa.Function, start *ssa.BasicBlock, stop func(*ssa.BasicBlock) bool) {
+	if it.heap == nil {
+		it.heap = map[string]Val{}
+	}
+	if it.MaxSteps == 0 {
+		it.MaxSteps = 20000
+	}
+	if it.MaxDepth == 0 {
+		it.MaxDepth = 6
+	}
+	it.depth++
+	defer func() { it.depth-- }()
+	fr := &frame{fn: fn, env: map[ssa.Value]Val{}, cells: map[*ssa.Alloc]Val{}}
+	it.exec(fr, start, nil, stop)
+}
+
+// exec runs the blocks of fr.fn from b (entered from prev) to a return, or to
+// the first block accepted by stop.
+func (it *Interp) exec(fr *frame, b, prev *ssa.BasicBlock, stop func(*ssa.BasicBlock) bool) Val {
+	fn := fr.fn
 	for it.Err == nil && !it.Halt {
 		var next *ssa.BasicBlock
 		for _, in := range b.Instrs {
@@ -367,7 +403,13 @@ func (it *Interp) Call(fn *ssa.Function, args []Val, bindings []Val) Val {
 				it.fail("panic reached in %s", fn)
 				return Val{}
 			case *ssa.Store:
-				it.store(fr, x.Addr, it.eval(fr, x.Val))
+				sv := it.eval(fr, x.Val)
+				it.store(fr, x.Addr, sv)
+				if it.OnStore != nil {
+					if _, cell := x.Addr.(*ssa.Alloc); !cell && it.Err == nil {
+						it.OnStore(x, it.eval(fr, x.Addr), sv)
+					}
+				}
 			case *ssa.MapUpdate, *ssa.Send, *ssa.DebugRef, *ssa.RunDefers:
 			case *ssa.Defer:
 				// deferred calls are irrelevant for the finite tables we extract
@@ -382,6 +424,9 @@ func (it *Interp) Call(fn *ssa.Function, args []Val, bindings []Val) Val {
 		if next == nil {
 			it.fail("fell off block %d of %s", b.Index, fn)
 			return Val{}
+		}
+		if stop != nil && stop(next) {
+			return Val{K: KTuple}
 		}
 		prev, b = b, next
 	}
@@ -416,6 +461,12 @@ func (it *Interp) eval(fr *frame, v ssa.Value) Val {
 	case *ssa.Builtin:
 		return Sym("builtin:"+x.Name(), x.Type())
 	}
+	if it.Unbound != nil {
+		if r, ok := it.Unbound(v); ok {
+			fr.env[v] = r
+			return r
+		}
+	}
 	it.fail("unbound value %s (%T) in %s", v.Name(), v, fr.fn)
 	return Val{}
 }
@@ -435,6 +486,16 @@ func (it *Interp) load(fr *frame, addr ssa.Value, t types.Type) Val {
 	if al, ok := addr.(*ssa.Alloc); ok {
 		if v, ok := fr.cells[al]; ok {
 			return v
+		}
+		if it.Unbound != nil {
+			if _, executed := fr.env[al]; !executed {
+				// a cell allocated outside the executed region: for an *ssa.Alloc
+				// Unbound answers with the content of the cell
+				if r, ok := it.Unbound(al); ok {
+					fr.cells[al] = r
+					return r
+				}
+			}
 		}
 		return it.zero(t)
 	}
